@@ -548,6 +548,8 @@ func (x *Exec) havoc(fr *Frame, ns, old *State, ms *ModSet, reach *Term, hint st
 		for k, f := range ns.fams {
 			if strings.HasPrefix(k, "map."+mk+".") {
 				ns.heap[k] = x.vc.fresh("H."+k, f.Sort)
+				// the havoced map still has a bounded length and holds only existing references
+				x.hp.closedness(ns.heap[k], f, ns.ctr.S)
 			}
 		}
 	}
@@ -670,6 +672,14 @@ func (x *Exec) flow(fr *Frame, n vnode, s *ssa.BasicBlock, cond *Term, st *State
 			for j, inv := range li.Spec.Invariants {
 				g := x.evalClause(env, inv)
 				x.vc.oblige("preserve", fmt.Sprintf("%s.preserve[%d]", key, j), cond, g, x.pos(n.b.Instrs[len(n.b.Instrs)-1].Pos()), inv.Src)
+			}
+			if len(li.Spec.Steps) > 0 {
+				senv := x.loopEnv(fr, st)
+				senv.old = loopHeadState[li]
+				for j, sc := range li.Spec.Steps {
+					g := x.evalClause(senv, sc)
+					x.vc.oblige("step", fmt.Sprintf("%s.step[%d]@b%d", key, j, n.b.Index), cond, g, x.pos(n.b.Instrs[len(n.b.Instrs)-1].Pos()), sc.Src)
+				}
 			}
 			if li.Spec.Decreases != nil {
 				h := loopHeadState[li]
